@@ -471,4 +471,38 @@ def judge_passthrough(in_path, out_path, doc, targets, chromosomes, tag, only_sn
                     if x["samples"][s].get(k) != y["samples"].get(s, {}).get(k):
                         diffs.append("%s:%d sample %s %s changed on a non-selected sample/chromosome" % (x["chrom"], x["pos"], s, k))
     counters["records_compared"] = counters.get("records_compared", 0) + len(a["records"])
-    return [{"mech": "passthrough-diff", "msg": d} for d in diffs[:5]]
+    out = [{"mech": "passthrough-diff", "msg": d} for d in diffs[:5]]
+    # INFO keys on the text level: pysam hides END from record.info, so the htslib differ above cannot see it come or go
+    try:
+        ta = vcftext.parse(_read_text(in_path))[2]
+        tb = vcftext.parse(_read_text(out_path))[2]
+    except Exception:
+        ta = tb = []
+    if len(ta) == len(tb):
+        for x, y in zip(ta, tb):
+            ka, kb = _info_keys(x.get("info")), _info_keys(y.get("info"))
+            counters["info_key_sets_compared"] = counters.get("info_key_sets_compared", 0) + 1
+            if ka != kb:
+                symbolic = any(str(alt).startswith("<") for alt in x.get("alts") or [])
+                if kb - ka == {"END"} and not (ka - kb) and symbolic:
+                    mech = "info-key-added:END-on-symbolic-alt"
+                else:
+                    mech = "passthrough-diff"
+                out.append({"mech": mech, "msg": "%s:%s INFO keys %r -> %r (ALT %r)" % (x.get("chrom"), x.get("pos"), sorted(ka), sorted(kb), x.get("alts"))})
+                break
+    return out
+
+
+def _read_text(path):
+    import gzip
+
+    with (gzip.open(path, "rt") if str(path).endswith(".gz") else open(path)) as fh:
+        return fh.read()
+
+
+def _info_keys(info):
+    if info in (None, ".", ""):
+        return set()
+    if isinstance(info, dict):
+        return set(info)
+    return {kv.split("=", 1)[0] for kv in str(info).split(";") if kv}
